@@ -890,6 +890,12 @@ class xRFM:
 
         y = torch.as_tensor(y).to(self.device)
         y_val = torch.as_tensor(y_val).to(self.device)
+        # integer labels of any width: torch implements few operations for uint16/uint32/uint64 (what unsigned NumPy
+        # arrays become), so bring integer targets to int64 first
+        if not y.is_floating_point() and y.dtype != torch.bool:
+            y = y.long()
+        if not y_val.is_floating_point() and y_val.dtype != torch.bool:
+            y_val = y_val.long()
         y_train_and_val = torch.cat([y, y_val], dim=0)
 
         # automatically determine whether it's classification or regression
